@@ -828,7 +828,7 @@ static void runCall(World& w, const Call& c, Out& o, bool noise)
     case K_SELECT:
     {
       Db* in = dataDb(w, c.a);
-      Db* out = targetDb(w, c.b);
+      Db* out = (c.b % 3 == 2) ? in : targetDb(w, c.b); // (targets that are the data themselves)
       o.iv.push_back(w.ng->attach(in, out));
       for (int t : c.i1)
       {
